@@ -579,3 +579,35 @@ func SV_C16_free_sequence() {
 	e.finalise()
 	e.compare("finalised", 0, 1, 2, 3)
 }
+
+// SV_C16_two_addresses: mutations of two different accounts inside one reverted
+// snapshot, then another mutation of the second account (the journal's dirty
+// table is indexed per address).
+//
+// sv:bounds as SV_C16_snapshot_revert with two different addresses (EOA + contract, or absent + natively funded): [snapshot, op on the first, op on the second, revert, AddBalance / SetNonce on the second, compare, finalise, compare]
+// sv:outside as SV_C16_snapshot_revert
+// sv:goal as SV_C16_snapshot_revert; additionally the adapter does not panic where the reference does not
+func SV_C16_two_addresses() {
+	sv.CrashIsViolation("adapter-panics-on-a-valid-sequence")
+	e := c16NewEnv(true)
+	pair := [][2]int{{0, 1}, {2, 3}, {1, 0}, {3, 2}}[sv.Choice("pair", 2+2*sv.Tier())]
+	a, b := pair[0], pair[1]
+	e.snapshot()
+	e.step("op1", a, 0)
+	e.step("op2", b, 0)
+	e.revert(0)
+	e.compare("reverted", a, b)
+	switch sv.Choice("op3", 2) {
+	case 0:
+		x := sv.BigInt("op3.amount")
+		sv.Assume(x.Sign() > 0 && x.Cmp(new(big.Int).Lsh(big.NewInt(1), 128)) < 0)
+		e.sdb.AddBalance(e.addrs[b], x)
+		e.ref.AddBalance(e.addrs[b], x)
+	default:
+		e.sdb.SetNonce(e.addrs[b], 1)
+		e.ref.SetNonce(e.addrs[b], 1)
+	}
+	e.compare("3", a, b)
+	e.finalise()
+	e.compare("finalised", a, b)
+}
